@@ -18,13 +18,19 @@ Per run:  (1) translator obligations: the five closed formulas of Numerics.py, r
               the canonical float call, the value at zero spacing and the Coq model on the typed node list (C07_typing_of_spacings_irrelevant,
               C07_integer_spacings_exact, C07_integer_weights_refuted).  When a source obligation is broken the stream runs at thorough size
               (targeted search) before anything is reported without a failing input.
+          (8) EDGE VALUES OF THE FALLBACK THRESHOLD (harness/props/c07_edges.py, every run): k = 2..6, linear/log, array/Spectrum, fail_mag = 0 in every
+              accepted spelling (int, float, -0.0, False, numpy scalars, 0-d arrays, Fraction), tiny, just below / just above the decade distance of
+              an entry, exactly the decade distance (exact integer data: ties), 1/True, large, infinite; zero / equal / negative / sign-changing
+              entries; against the Coq model (fail_mag enters `far` as a number of the field) and BOTH halves of the property predicate (value at zero
+              spacing when robustly within fail_mag decades, finest-grid value when robustly beyond); full size when a source obligation is broken
+              (C07_fallback_decision_is_strict_decade_distance, C07_zero_threshold_falls_back_whenever_different).
 """
 import ast, itertools, json, math, os
 from fractions import Fraction
 from harness import lib
 from harness.lib import q, ql, b
 from harness.translate import pyexpr
-from harness.props import c07_frame, c07_types
+from harness.props import c07_frame, c07_types, c07_edges
 
 NUMERICS = os.path.join(lib.REPO, 'dadi', 'Numerics.py')
 FUNCS = {2: 'linear_extrap', 3: 'quadratic_extrap', 4: 'cubic_extrap', 5: 'quartic_extrap', 6: 'quintic_extrap'}
@@ -85,7 +91,7 @@ def dispatch_obligation(ctx):
     except Exception as e:
         ctx.obligation('dispatch table of make_extrap_func', False, 'translator', repr(e))
 
-def gen_cases(ctx):
+def gen_cases(ctx, edges_full=False):
     rng = ctx.rng
     cases = []
     cid = 0
@@ -199,6 +205,8 @@ def gen_cases(ctx):
         attach_calls(rng, c, n, nexp)
         if c['x_from'] == 'explicit':
             nexp += 1
+    # edge values of the fallback threshold (harness/props/c07_edges.py): systematic, every run, own PRNG, own (short) call lists
+    cases += c07_edges.gen_edges(ctx, edges_full, cid)
     return cases
 
 
@@ -331,8 +339,13 @@ def run(ctx):
                 'argument-type stream (every run): per k = 1..6 x linear/log x array/Spectrum(explicit list, .extrap_x) x float/integer-valued data one '
                 'base case on integer spacings certified sensitive to integer-cut weights, handed over in every accepted type of extrap_x_l / '
                 '.extrap_x / pts / results / fail_mag / extrap_log (table in c07_types.py), and the closed formulas called directly with every '
-                'xs type x ys type; thorough size (3 base cases per combination, full crossing) in the thorough tier and whenever a source obligation is broken')
-    ctx.assumptions += ['float64 evaluation of the formulas is compared with exact rational evaluation at tolerance 1e-11 x conditioning scale (sum |w_i y_i|)',
+                'xs type x ys type; thorough size (3 base cases per combination, full crossing) in the thorough tier and whenever a source obligation is broken; '
+                'edge-value stream (every run): per k = 2..6 x linear/log x array/Spectrum one polynomial base case under fail_mag in {0 in 12 spellings, 5e-324, '
+                '1e-300, 1e-12, decade distance of an entry x (1 -+ 2^-10), 1, True, 1000, 1e300, inf} and (linear mode) one exact integer data set with ties at '
+                '10^F, zero / equal / negative entries under fail_mag in {1 in 9 spellings, 2, 3.0, 0, 5e-324, inf}; own PRNG derived from the run seed')
+    ctx.assumptions += ['edge values of fail_mag: an exactly-zero extrapolation in a Spectrum-valued result (numpy.ma masks log10(0)), ties at 10^2 / 10^3 in the Coq model '
+                        '(decided by the exact Python predicate instead) and downward ties are not compared; an infinite fail_mag is the largest float on the model side',
+                        'float64 evaluation of the formulas is compared with exact rational evaluation at tolerance 1e-11 x conditioning scale (sum |w_i y_i|)',
                         'Qexp/Qln are rational approximations with relative error < 1e-25 (log mode only)',
                         'argument types: a variant with a float32 operand (spacings, .extrap_x or results in float32) is compared at 2e-5 x conditioning scale '
                         '(numpy forms the weights / the sum in float32); fixed-width integers narrower than 32 bits, unsigned integers, float16 spacings and '
@@ -344,7 +357,7 @@ def run(ctx):
     broken = [o['name'] for o in ctx.obligations if not o['ok'] and o['kind'] == 'translator']
     if broken:
         ctx.notes.append('source obligation(s) broken (%s): argument-type stream run at thorough size as a targeted search' % '; '.join(broken[:3]))
-    cases = gen_cases(ctx)
+    cases = gen_cases(ctx, edges_full=(not ctx.quick) or bool(broken))
     types_replay = None
     if ctx.replay:
         rp = json.load(open(ctx.replay))
@@ -372,6 +385,8 @@ def run(ctx):
         calls = c.get('calls') or legacy_calls(c)
         ctx.count('k=%d' % c['k']); ctx.count('mode=' + c['mode']); ctx.count('log' if c['log'] else 'linear')
         ctx.count('extrap_x_l=' + ('None' if c['x_from'] == 'attr' else c.get('xl_kind', 'list')))
+        if c.get('edge'):
+            ctx.count('edges: cases (%s data)' % c['edge']); ctx.count('edges: fail_mag ' + ('just below / just above the decade distance of an entry' if 'just' in c.get('special', '') else 'as ' + c07_edges.fm_text(c['fm_kind'], c['fail_mag'])))
         if 'error' in r:
             ctx.count('impl_error')
             violation('raise', 'make_extrap_func raised %s when wrapping (k=%d grid sizes)' % (r['error'], c['k']), {'case': c, 'impl': r})
@@ -430,6 +445,25 @@ def run(ctx):
             if alias:
                 violation('alias', 'result of %s: %s' % (where, '; '.join(alias[:3])), replay_of(c, j, {'impl': o}))
                 bad_case = True
+            # --- edge stream: mask of a Spectrum result (corners only), exact expected values (integer data on integer spacings)
+            if c.get('want_mask') is not None and mask != c['want_mask']:
+                violation('glue', 'mask of the result is %r, expected %r in %s' % (mask, c['want_mask'], where), replay_of(c, j, {'impl': o}))
+                bad_case = True
+            if c.get('expect') is not None and not bad_case:
+                for e, want in enumerate(c['expect']):
+                    if mask[e] or want is None:
+                        ctx.count('edges: exact entries not compared (masked / zero extrapolation in a Spectrum)'); continue
+                    ctx.count('edges: exact predicate evaluations')
+                    if not abs(out[e] - want) <= 1e-12 * max(1.0, abs(want)):
+                        ws = lag_weights(x_used)
+                        exv = float(sum(w * Fraction(y) for w, y in zip(ws, ys[e])))
+                        bestv = ys[e][min(range(c['k']), key=lambda i: x_used[i])]
+                        violation('exact', 'fallback decision wrong at an edge value of fail_mag: fail_mag=%s, extrapolated value %r, finest-grid value %r '
+                                  '(%s): got %r, the property gives %r, in %s' % (c07_edges.fm_text(c['fm_kind'], c['fail_mag']), exv, bestv,
+                                                                                c['roles'][e], out[e], want, where),
+                                  replay_of(c, j, {'entry': e, 'impl': out[e], 'want': want}))
+                        bad_case = True
+                        break
             # --- property predicate on the implementation (polynomial data paired with its own spacings): result = value at 0
             if not c.get('ys_override') and x_used == x_true:
                 for e, cs in enumerate(coefs):
@@ -448,7 +482,25 @@ def run(ctx):
                     best = ys[e][min(range(c['k']), key=lambda i: x_used[i])]
                     fb = False
                     if c['k'] > 1 and want != 0 and best != 0 and want / best > 0:
-                        fb = abs(math.log10(want / best)) > c['fail_mag'] * (1 - 1e-6)
+                        dist = abs(math.log10(want / best))
+                        fb = dist > c['fail_mag'] * (1 - 1e-6)
+                        # the fallback half of the property: an extrapolation ROBUSTLY more than fail_mag decades from the finest-grid
+                        # value (beyond the float error of the extrapolated value, 1e-9 x conditioning, in decades) must come back as the
+                        # finest-grid value (a copy of it: exp(log(.)) in log mode)
+                        slack = 1e-9 * scale / abs(want)
+                        if dist > c['fail_mag'] * (1 + 1e-6) + slack:
+                            ctx.count('fallback predicate evaluations')
+                            if not abs(out[e] - best) <= 1e-12 * abs(best):
+                                violation('exact', 'an entry whose extrapolation lands more than fail_mag decades from the finest-grid value does not fall '
+                                          'back to it: fail_mag=%s, value at zero spacing %r is %.6g decades from the finest-grid value %r, got %r in %s'
+                                          % (c07_edges.fm_text(c['fm_kind'], c['fail_mag']) if c.get('fm_kind') else repr(c['fail_mag']),
+                                             want, dist, best, out[e], where),
+                                          replay_of(c, j, {'entry': e, 'impl': out[e], 'want': best}))
+                                bad_case = True
+                                break
+                            continue
+                        if fb or dist > c['fail_mag'] * (1 - 1e-6) - slack:
+                            fb = True
                     if fb:
                         ctx.count('fallback_applies'); continue
                     ctx.count('predicate evaluations')
@@ -479,6 +531,8 @@ def run(ctx):
             for e in range(len(out)):
                 if mask[e]:
                     continue
+                if e in (c.get('no_coq') or ()):
+                    ctx.count('edges: ties at 10^2, 10^3 decided by the exact predicate only'); continue
                 ikey = (tuple(ys[e]), out[e])          # identical (data, result) pairs are evaluated once
                 n = bt['index'].get(ikey)
                 if n is None:
@@ -511,8 +565,8 @@ def run(ctx):
     from concurrent.futures import ThreadPoolExecutor
     with ThreadPoolExecutor(max_workers=nsh + len(tstream.jobs)) as ex:
         futs = [ex.submit(ctx.coq_cases, 'corr%d' % i, header, bn[1], '(xcheck_batch %s)' % q(TOL), 'tol 1e-11 x conditioning scale',
-                          shard=size, record_err=False) for i, bn in enumerate(bins) if bn[1]]
-        tfuts = {tag: ex.submit(ctx.coq_cases, tag, header, exprs, fn, toltext, shard=max(1, -(-len(exprs) // 4)), record_err=False)
+                          shard=size, record_err=False, timeout=ctx.pick(900, 3600)) for i, bn in enumerate(bins) if bn[1]]
+        tfuts = {tag: ex.submit(ctx.coq_cases, tag, header, exprs, fn, toltext, shard=max(1, -(-len(exprs) // 4)), record_err=False, timeout=ctx.pick(900, 3600))
                  for tag, exprs, fn, toltext in tstream.jobs if exprs}
         for f in futs:
             results.update(f.result())
